@@ -94,3 +94,84 @@ pub fn gen_cache(ctx: &Ctx) {
     }
     out.finish();
 }
+
+
+// ---------------------------------------------------------------------------------------------
+// stream `dateresp` (C18): the Date field of a message is the clock reading at the moment the head is emitted,
+// also when the body source makes the clock advance before anything is written.
+// case: `<R|Q|B|E> <t0> <adv> <len> <cl|chunked|auto>`: entry point (write_response from a reader / write_request / bytes / empty),
+//       clock t0 at the call, the reader's first read advances it by adv seconds
+// impl: `<hex of the date line in the emitted head> <clock reading at the writer's first write>`
+thread_local! { static NOW: std::cell::Cell<i64> = const { std::cell::Cell::new(0) }; }
+fn set_now(t: i64) { NOW.with(|c| c.set(t)); khttp::verif::set_test_clock(Some(t)); }
+struct TickReader { left: usize, adv: i64, ticked: bool }
+impl std::io::Read for TickReader {
+    fn read(&mut self, buf: &mut [u8]) -> std::io::Result<usize> {
+        if !self.ticked { self.ticked = true; let t = NOW.with(|c| c.get()); set_now(t + self.adv); }
+        let n = self.left.min(buf.len()).min(1000);
+        for b in buf[..n].iter_mut() { *b = b'x'; }
+        self.left -= n;
+        Ok(n)
+    }
+}
+struct StampWriter { out: Vec<u8>, first: Option<i64> }
+impl std::io::Write for StampWriter {
+    fn write(&mut self, b: &[u8]) -> std::io::Result<usize> {
+        if self.first.is_none() && !b.is_empty() { self.first = Some(NOW.with(|c| c.get())); }
+        self.out.extend_from_slice(b); Ok(b.len())
+    }
+    fn flush(&mut self) -> std::io::Result<()> { Ok(()) }
+}
+pub fn run_resp(case: &str) -> String {
+    crate::util::note_current(case);
+    let f: Vec<String> = case.split(' ').map(|x| x.to_string()).collect();
+    let h = std::thread::spawn(move || {
+        use khttp::{Headers, HttpPrinter, Method, Status};
+        let (t0, adv, len): (i64, i64, usize) = (f[1].parse().unwrap(), f[2].parse().unwrap(), f[3].parse().unwrap());
+        // warm the thread's date cache one second earlier, as a serving thread would have
+        set_now((t0 - 1).max(0));
+        let _ = khttp::date::get_date_now();
+        set_now(t0);
+        let mut hs = Headers::new();
+        match f[4].as_str() { "cl" => hs.set_content_length(Some(len as u64)), "chunked" => hs.set_transfer_encoding_chunked(), _ => {} }
+        let mut w = StampWriter { out: Vec::new(), first: None };
+        let body = vec![b'x'; len];
+        let _ = match f[0].as_str() {
+            "R" => HttpPrinter::write_response(&mut w, &Status::OK, &hs, TickReader { left: len, adv, ticked: false }),
+            "Q" => HttpPrinter::write_request(&mut w, &Method::Post, "/u", &hs, TickReader { left: len, adv, ticked: false }),
+            "B" => HttpPrinter::write_response_bytes(&mut w, &Status::OK, &hs, &body),
+            _ => HttpPrinter::write_response_empty(&mut w, &Status::OK, &hs),
+        };
+        khttp::verif::set_test_clock(None);
+        let head_end = w.out.windows(4).position(|x| x == b"\r\n\r\n").map(|p| p + 2).unwrap_or(w.out.len());
+        let head = &w.out[..head_end];
+        let mut date = Vec::new();
+        let mut i = 0;
+        while i < head.len() {
+            let e = head[i..].windows(2).position(|x| x == b"\r\n").map(|p| i + p + 2).unwrap_or(head.len());
+            if head[i..e].to_ascii_lowercase().starts_with(b"date:") { date = head[i..e].to_vec(); }
+            i = e;
+        }
+        format!("{} {}", hex(&date), w.first.unwrap_or(-1))
+    });
+    h.join().unwrap_or_else(|_| "PANIC".into())
+}
+
+pub fn gen_resp(ctx: &Ctx) {
+    let mut rng = Rng::new(ctx.seed, "dateresp");
+    let mut out = Out::new(&ctx.dir, "dateresp");
+    out.rule = "messages printed under the test clock by the four entry points that emit a Date (write_response from a reader, write_request, write_response_bytes, write_response_empty) x \
+                {declared length, chunked, nothing declared} x body lengths {0, 10, 5000, 20000}; the body reader's first read advances the clock by 0..5 s (a slow source); the Date must be \
+                the reading at the moment the head is written. non-trivial = the clock advanced".into();
+    let n = if ctx.thorough { 3000 } else { 300 };
+    for _ in 0..n {
+        let ep = *rng.pick(&["R", "R", "Q", "B", "E"]);
+        let t0 = match rng.below(3) { 0 => rng.below(253_402_300_000) as i64, 1 => rng.below(2_932_896) as i64 * 86400 + 86400 - rng.range(1, 3) as i64, _ => 1_700_000_000 + rng.below(100_000_000) as i64 };
+        let adv = *rng.pick(&[0i64, 1, 1, 2, 5]);
+        let len = if ep == "E" { 0 } else { *rng.pick(&[0usize, 10, 5000, 20000]) };
+        let case = format!("{ep} {t0} {adv} {len} {}", rng.pick(&["cl", "chunked", "auto"]));
+        let r = run_resp(&case);
+        out.emit(&case, &r, &format!("{ep}/adv{}", adv.min(2)), adv > 0 && (ep == "R" || ep == "Q") && len > 0);
+    }
+    out.finish();
+}
